@@ -23,6 +23,11 @@ CO = 'connection_options::ConnectionOptions::'
 
 
 def run(ctx):
+    _run_main(ctx)
+    _shared_r4(ctx)
+
+
+def _run_main(ctx):
     with ctx.rule('R15.1', 'negotiation term: min of both sides with 0 promoted to the maximum (channel_max, frame_max); plain min for heartbeat', floor=9) as r:
         fnp = CO + 'make_tune_ok'
         rows = P.table(ctx, fnp, ['self', 'tune'])
@@ -137,3 +142,10 @@ def run(ctx):
         r.check('explicit-id-bounded', g['max'], ctx.site('io_loop::channel_slots::ChannelSlots::insert'), built=g['guards'])
         ok, why = panics.Checkers(ctx).run('never_used_counter_cannot_overflow')
         r.check('automatic-id-bounded', ok, ctx.site('io_loop::channel_slots::ChannelSlots::insert_unused_channel_id'), built=why)
+
+
+def _shared_r4(ctx):
+    from rules import arms as A
+    """Rules of other properties that are necessary conditions of this one too (found by seeding round 4)."""
+    with ctx.rule('R15.6', 'heartbeat timing follows the announced interval: rx timer at the interval, tx timer at half of it (shared with C17)', floor=1) as r:
+        A.include(ctx, r, 'c17', 'R17.1', pick=('rx-tx-intervals', 'max-missed'))
